@@ -246,6 +246,11 @@ def rule_r4(ctx) -> RuleResult:
                 seen_ops.append("sub({!r}, {!r})".format(pat, rep))
                 if pat == r"[\0-\037]" and rep == "":
                     st["ctrl"] = False
+                    # deleting characters can join what was apart: ".\x01." becomes "..", "/\x01/" becomes "//",
+                    # "\x01/x" becomes "/x" -- every structural fact established so far is void again
+                    st["dotdot"] = True
+                    st["double_slash"] = True
+                    st["leading_slash"] = True
                 elif pat in (r"//+", r"/{2,}") and rep == "/":
                     st["double_slash"] = False
                 elif pat in (r"\.\.+", r"\.{2,}") and rep in (".", ""):
